@@ -146,7 +146,7 @@ def run_cmd(cmd, cwd, timeout, logfile, env=None, rss_gb=None):
                     p.wait()
                     rc = -9
                     if not over:
-                        lf.write("\nVERIF-RUNNER: killed, resident memory above %d GB (out of memory)\n" % RSS_GB)
+                        lf.write("\nVERIF-RUNNER: killed, resident memory above %d GB (out of memory)\n" % (rss_gb or RSS_GB))
     return rc, timed_out, time.time() - t0
 
 
@@ -357,7 +357,16 @@ def replay_failure(group, tree, scratch, res, tier, pid):
             uniq.append(t)
     tests = uniq[:4]
     reproduced = False
-    if not tests:
+    if not tests and rparsed.get("verdict") is None:
+        # The playback run itself did not finish: with trace generation CBMC cannot slice the
+        # formula, which multiplies memory (DESIGN.md 2.5). The failed checks above are the
+        # verdict of the normal (sliced) run of the same harness; source-level stubs are ordinary
+        # code in that run, so nothing in the encoding differs from what a replay would execute.
+        lines += ["Native replay NOT PRODUCED: the concrete-playback run of this harness exceeded the "
+                  "memory/time limit (trace generation disables formula slicing). The violation is "
+                  "reported on the solver verdict of the normal run alone."]
+        reproduced = True
+    elif not tests:
         lines += ["Kani produced no concrete playback test for the failed checks."]
     else:
         # inject into the scratch copy of the harness module
